@@ -524,13 +524,13 @@ LAWS = []
 for _kind in objs.ALL_KINDS:
     LAWS.append(Law("action[%s]" % _kind, action_case(_kind), make_action_body(_kind),
                     nt_action_point if _kind in ("P.Point", "H.Point", "H.IdealPoint")
-                    else nt_action, quick=60, thorough=700, shards=(1, 3)))
+                    else nt_action, quick=60, thorough=500, shards=(1, 3)))
 LAWS += [
     Law("absolute_column_convention", absolute_case(), body_absolute, nt_absolute,
-        quick=200, thorough=2000, shards=(2, 8)),
+        quick=200, thorough=1500, shards=(2, 8)),
     Law("derived_data_equivariant", derived_case(), body_derived, lambda l: True,
         quick=150, thorough=1500, shards=(1, 4)),
-    Law("rep_word_acts_as_matrix", rep_case(), body_rep, nt_rep, quick=150, thorough=1500,
+    Law("rep_word_acts_as_matrix", rep_case(), body_rep, nt_rep, quick=150, thorough=1200,
         shards=(2, 8)),
     Law("type_and_shape_preserved", type_case(), body_type,
         lambda l: "shape-changes-or-composite-T" in l, quick=200, thorough=2000,
